@@ -689,3 +689,112 @@ def check_C13(tier, seed):
     return v.finish(rule="(a) operation sequences emitted by TLC from spec/Namespace.tla, executed on the real store with "
                     "restarts; (b) seeded concurrent stress in a child process; (c) every recorded pair validated by TLC "
                     "against spec/TraceNamespace.tla. evaluations = compared answers; distinct_nontrivial = non-empty sequences")
+
+
+# ----------------------------------------------------------------------------
+# C05
+
+def locks_stage(v, sd):
+    """TLC deadlock check of the lock protocol (spec/Locks.tla) as the code implements it now."""
+    scen = {
+        "two_txn_same_pair_plus_writer": ('("p1" :> <<"a","b">>) @@ ("p2" :> <<"a","b">>) @@ ("p3" :> <<"a">>)', '[p \\in MC_Procs |-> IF p = "p3" THEN "w" ELSE "t"]'),
+        "txn_with_core_and_writers": ('("p1" :> <<"a","core">>) @@ ("p2" :> <<"b">>) @@ ("p3" :> <<"a">>)', '[p \\in MC_Procs |-> IF p = "p1" THEN "t" ELSE "w"]'),
+        "three_txn_overlapping": ('("p1" :> <<"a","b">>) @@ ("p2" :> <<"b","c">>) @@ ("p3" :> <<"a","c","core">>)', '[p \\in MC_Procs |-> "t"]'),
+    }
+    for k, (targets, kind) in scen.items():
+        name = "Locks_" + k
+        with open(os.path.join(sd, name + ".tla"), "w") as fh:
+            fh.write("---- MODULE %s ----\nEXTENDS Locks\nMC_Procs == {\"p1\",\"p2\",\"p3\"}\nMC_Kind == %s\nMC_Targets == %s\n====\n" % (name, kind, targets))
+        with open(os.path.join(sd, name + ".cfg"), "w") as fh:
+            fh.write("SPECIFICATION Spec\nCONSTANTS Procs <- MC_Procs Kind <- MC_Kind Targets <- MC_Targets AsCoded = FALSE\nINVARIANT MutualExclusion\n")
+        st = verif.run_tlc(sd, name, os.path.join(v.wd, name + ".out"), timeout=300, workers=4)
+        if st["error"] and "Deadlock" in st["tail"]:
+            raise Inconclusive("Locks.tla (protocol as implemented) deadlocks in the model: the model no longer describes a "
+                               "deadlock-free protocol; the stress stage decides about the code")
+        v.add_tlc(st)
+
+
+def check_C05(tier, seed):
+    v = Verdict("C05", tier, seed)
+    v.wd = verif.workdir("C05")
+    sd = verif.spec_copy(v.wd)
+    binary = verif.build_harness(v.wd)
+    thorough = tier == "thorough"
+    locks_stage(v, sd)
+    bursts = 40 if thorough else 8
+    import concurrent.futures as cf
+
+    def burst(k):
+        gmp = ["16", "4", "2", "1"][k % 4]
+        tr = os.path.join(v.wd, "lin_%d.ndjson" % k)
+        d = os.path.join(v.wd, "st_%d" % k)
+        env = dict(os.environ, VERIF_TRACE=tr, VERIF_DIR=d, VERIF_OPS=str(14 if thorough else 10),
+                   VERIF_SEED=str(seed * 100 + k), GOMAXPROCS=gmp)
+        try:
+            p = verif.subprocess.run([binary, "-test.run", "^TestConcurrency$", "-test.timeout", "0"], cwd=v.wd, env=env,
+                                     capture_output=True, text=True, timeout=180)
+            rc, txt = p.returncode, p.stdout + p.stderr
+        except verif.subprocess.TimeoutExpired as e:
+            rc, txt = 98, "driver timeout (no exit within 180 s)\n" + str(e.stdout)[-2000:]
+        verif.shutil.rmtree(d, ignore_errors=True)
+        return k, gmp, rc, txt, tr
+
+    results = []
+    with cf.ThreadPoolExecutor(max_workers=4) as ex:
+        for r in ex.map(burst, range(bursts)):
+            results.append(r)
+    nviol = 0
+    for k, gmp, rc, txt, tr in results:
+        if rc == 0:
+            continue
+        m = verif.re.search(r"^(fatal error: .*|panic: .*|HANG: .*)$", txt, verif.re.M)
+        if rc in (97, 98) or (m and "mimiro-io/datahub/internal/" in txt):
+            nviol += 1
+            path = os.path.join(v.wd, "replay-C05_stress-%d.json" % k)
+            with open(path, "w") as fh:
+                json.dump({"property": "C05", "stage": "C05_stress", "seed": seed * 100 + k, "gomaxprocs": gmp,
+                           "what": m.group(1) if m else "hang", "log_tail": txt[-6000:]}, fh, indent=1)
+            if nviol <= 3:
+                v.violations.append(("C05_stress: clients did not all complete: %s" % (m.group(1) if m else "hang/timeout"), path))
+        else:
+            verif.sys.stderr.write(txt[-2000:])
+            raise Inconclusive("concurrency driver failed (exit %d)" % rc)
+
+    def validate(item):
+        k, gmp, rc, txt, tr = item
+        if rc != 0:
+            return k, None
+        sdk = os.path.join(v.wd, "spec_tv_%d" % k)
+        verif.shutil.copytree(sd, sdk)
+        ok, nlines, line, tst = verif.validate_trace(sdk, sdk, "TraceLin", tr, invariants=("CountersAgree",))
+        verif.shutil.rmtree(sdk, ignore_errors=True)
+        return k, (ok, nlines, line, tst, tr)
+
+    with cf.ThreadPoolExecutor(max_workers=4) as ex:
+        vals = list(ex.map(validate, results))
+    for k, r in vals:
+        if r is None:
+            continue
+        ok, nlines, line, tst, tr = r
+        v.cov["states"] += tst["distinct"]
+        v.cov["transitions"] += tst["generated"]
+        v.cov["traces_validated_against_impl"] += 1
+        v.cov["evaluations"] += nlines
+        v.cov["distinct_nontrivial"] += 1
+        if len(v.cov["samples"]) < 2:
+            v.cov["samples"].append([json.loads(l) for l in open(tr).readlines()[:6]])
+        if not ok:
+            what = ("invariant %s violated" % tst.get("invariant")) if line == -1 else (
+                "no total order of the acknowledged writes explains the final feeds (or a read saw part of a batch / "
+                "transaction, or the lock-order graph has a cycle)" if line > nlines else "event not allowed by the reference")
+            trace_violation(v, "C05_trace_%d" % k, tr, min(max(line, 1), nlines), what)
+    v.cov["stages"].append({"name": "C05_stress", "bursts": bursts, "hung_or_crashed": nviol})
+    v.assumptions = ["each burst: 3 batch writers, 3 transaction clients naming {a,b} in both orders, 1 transaction client that "
+                     "includes core.Dataset, 1 dataset create/delete client, 3 readers; seeds x GOMAXPROCS in {16,4,2,1}",
+                     "writes carry unique tags, so the final feeds are a witness of the order in which writes took effect",
+                     "a hang is declared when no client completes an operation for 10 s"]
+    return v.finish(rule="spec/Locks.tla model-checked for deadlock freedom; concurrent stress bursts of the real hub in "
+                    "child processes with a progress watchdog; every recorded trace validated by TLC against "
+                    "spec/TraceLin.tla (linearization of the acknowledged writes that extends client order and yields the "
+                    "final feeds, atomic reads, acyclic lock order, counters). evaluations = trace lines; "
+                    "distinct_nontrivial = validated bursts")
